@@ -1,5 +1,7 @@
 # U1: the scheduler (stage.rs, util.rs, parts of builder.rs / batch.rs / dispatcher.rs / send_dispatcher.rs)
 STAGE = "src/dispatch/stage.rs"
+SD = "src/dispatch/send_dispatcher.rs"
+DISP = "src/dispatch/dispatcher.rs"
 SB = r"StagesBuilder"
 
 TYPE_RULES = [
@@ -62,6 +64,12 @@ UNIT = dict(
         dict(key="Stage::execute", file=STAGE, kind="fn", name="execute", owner=r"impl Stage\b", emit_owner="impl Stage", sig_prefix=NOISO, cfg=["parallel"]),
         dict(key="Stage::max_threads", file=STAGE, kind="fn", name="max_threads", owner=r"impl Stage\b", emit_owner="impl Stage", cfg=["parallel"]),
         dict(key="Stage::execute_seq", file=STAGE, kind="fn", name="execute_seq", owner=r"impl Stage\b", emit_owner="impl Stage", sig_prefix=NOISO),
+        dict(key="SendDispatcher::setup", file=SD, kind="fn", name="setup", owner=r"impl SendDispatcher\b", emit_owner="impl SendDispatcher", sig_prefix=NOISO),
+        dict(key="SendDispatcher::dispose", file=SD, kind="fn", name="dispose", owner=r"impl SendDispatcher\b", emit_owner="impl SendDispatcher", sig_prefix=NOISO),
+        dict(key="SendDispatcher::dispatch_par", file=SD, kind="fn", name="dispatch_par", owner=r"impl SendDispatcher\b", emit_owner="impl SendDispatcher", sig_prefix=NOISO, cfg=["parallel"], mut_iter_vars=["stages"]),
+        dict(key="SendDispatcher::dispatch_seq", file=SD, kind="fn", name="dispatch_seq", owner=r"impl SendDispatcher\b", emit_owner="impl SendDispatcher", sig_prefix=NOISO),
+        dict(key="SendDispatcher::dispatch", file=SD, kind="fn", name="dispatch", owner=r"impl SendDispatcher\b", emit_owner="impl SendDispatcher"),
+        dict(key="SendDispatcher::max_threads", file=SD, kind="fn", name="max_threads", owner=r"impl SendDispatcher\b", emit_owner="impl SendDispatcher", sig_prefix=NOISO, cfg=["parallel"]),
         dict(key="StagesBuilder::insert", file=STAGE, kind="fn", name="insert", owner=SB, emit_owner="impl StagesBuilder",
              sig_rules=[(r"\binsert<T>", "insert<T: System>")], body_rules=[(r"Box::new\(system\)", "vx_boxed_sys(system)")]),
     ],
